@@ -45,7 +45,7 @@ package transport
 // C07: the pooled parameter object is returned with every field zero on every exit path, panics included.
 // C03/C09: the operation is dispatched only if CreateOperationContext returned no error, at most once, and
 // then no status line other than the implicit 200 is written.
-//@ func (POST).Do [C07,C10,C03,C09,C05]
+//@ func (POST).Do [C07,C10,C03,C09,C05,C15]
 // C09: no body before the response headers (negotiated Content-Type, configured headers) are in place
 //@   callsite writeJson: requires calls(writeHeaders) >= 1
 //@   callsite writeJsonError: requires calls(writeHeaders) >= 1
